@@ -774,6 +774,20 @@ fn c09_oracle(bytes: &[u8]) -> Result<(), (String, String)> {
         return Err(("language-not-second".into(), format!("operation attributes are {}", shown)));
     }
     let has = |x: &str| n.iter().any(|s| s == x);
+    // the mandatory / target attributes belong to the FIRST operation group: one that was pushed into a
+    // later operation-attributes group is "present" but not where RFC 8011 4.1.4-4.1.5 puts it
+    for (gi, g) in m.groups.iter().enumerate().skip(1) {
+        if g.tag == r1::TAG_OPERATION {
+            for a in names(g) {
+                if MANDATORY.contains(&a.as_str()) && !has(&a) {
+                    return Err((
+                        format!("{}-in-later-operation-group", a),
+                        format!("{} is emitted in operation group #{} instead of the first one (first group: {})", a, gi, shown),
+                    ));
+                }
+            }
+        }
+    }
     if has("printer-uri") {
         if n.get(2).map(|s| s.as_str()) != Some("printer-uri") {
             return Err(("printer-uri-not-third".into(), format!("operation attributes are {}", shown)));
